@@ -398,6 +398,16 @@ class StmtMixin(ExecBase):
         if isinstance(o, VList):
             n = list_len(st, o)
             it = self.norm_index(st, ops.to_int(i), n)
+            if self.allows(ctx, "IndexError"):
+                # Python's rule exactly: -n <= i < 0 addresses n + i, anything outside [-n, n) raises
+                def store_at(s_, idx):
+                    self.adopt_elem(o, v)
+                    self.list_write_check(s_, o, line)
+                    list_store(s_, o, idx, v)
+                    return k(s_)
+                return self.branch(st, z3.And(0 <= it, it < n), lambda s_: store_at(s_, it),
+                                   lambda s_: self.branch(s_, z3.And(-n <= it, it < 0), lambda s2: store_at(s2, n + it),
+                                                          lambda s2: self.raise_(s2, ctx, "IndexError", line)))
             self.oblige(st, "line%s::store-index-in-range" % line, z3.And(0 <= it, it < n), line)
             self.adopt_elem(o, v)
             self.list_write_check(st, o, line)
@@ -678,6 +688,8 @@ class StmtMixin(ExecBase):
             cnt, el, adv, ety = self.iter_source(st1, ctx, itv, s)
             ordinal, spec = self.loop_spec(ctx, s)
             for_info[:] = [(itv, (cnt, el, adv, ety), ordinal, spec, "_i%d" % (ordinal if ordinal is not None else -1))]
+            if isinstance(itv, VIter) and ordinal is not None:
+                st1.store["_it%d" % ordinal] = itv       # the implicit iterator of `for x in obj:` can be named in invariants / postconditions
             if cnt is None:
                 return self.unroll_for(s, st1, ctx, el, k)
             scnt = z3.simplify(cnt)
